@@ -726,7 +726,7 @@ func runJournalTrips(c *Ctx) {
 					// guarded by !ok of the lookup under the same key
 					for _, ce := range dominatingConds(blk) {
 						if ex, isEx := ce.Cond.(*ssa.Extract); isEx && ex.Index == 1 && !ce.Val {
-							if lk, isLk := ex.Tuple.(*ssa.Lookup); isLk && lk.X == mu.Map && (lk.Index == mu.Key || canon(lk.Index) == canon(mu.Key)) {
+							if lk, isLk := ex.Tuple.(*ssa.Lookup); isLk && (lk.X == mu.Map || mapCellOf(c, lk.X) == mapCellOf(c, mu.Map)) && (lk.Index == mu.Key || canon(lk.Index) == canon(mu.Key)) {
 								okCreate = true
 							}
 						}
